@@ -87,17 +87,19 @@ theorem mem_append_handle (m : FMap) (path : Str) (e : Entry) (h : m.find? path 
   simp [Mem.appendFile, h, hf]
 
 /-- flush (and drop) publish exactly the buffer, and a reader opened afterwards sees it -/
-theorem flush_publishes (m : FMap) (key : Str) (buf : Bytes) :
+theorem flush_publishes (m : FMap) (key : Str) (buf : Bytes) (e0 : Entry)
+    (h0 : m.find? key = some e0) (hf0 : e0.ftype = .file) :
     ∃ r m', Mem.openFile (memPublish m key buf) key = (.ok r, m') ∧ r.content = buf ∧ r.pos = 0 := by
-  obtain ⟨e, he, hc, hf⟩ := publish_exact m key buf
+  obtain ⟨e, he, hc, hf⟩ := publish_exact m key buf e0 h0 hf0
   unfold Mem.openFile Mem.setAccessed
   simp only [he, FMap.find?_insert_self]
   simp [hf, hc]
 
 /-- metadata reports the length of the published bytes -/
-theorem metadata_len (m : FMap) (key : Str) (buf : Bytes) :
+theorem metadata_len (m : FMap) (key : Str) (buf : Bytes) (e0 : Entry)
+    (h0 : m.find? key = some e0) (hf0 : e0.ftype = .file) :
     ∃ md, Mem.metadata (memPublish m key buf) key = .ok md ∧ md.len = buf.length ∧ md.ftype = .file := by
-  obtain ⟨e, he, hc, hf⟩ := publish_exact m key buf
+  obtain ⟨e, he, hc, hf⟩ := publish_exact m key buf e0 h0 hf0
   exact ⟨e.meta, by simp [Mem.metadata, he], by simp [Entry.meta, hc], by simp [Entry.meta, hf]⟩
 
 /-- a directory created by `create_dir` reports length 0 -/
